@@ -20,7 +20,7 @@ ID = 'C16'
 LEVEL = 'fault_enumeration'
 RULE = (
     'cases: synthetic but valid vasprun.xml / LAMMPS data+xyz / GROMACS gro+xtc files are written for generated '
-    'systems into a scratch directory and parsed by the real loaders.  Faults injected into the cache file: EVERY '
+    'systems (half of them with coordinates outside the box: unwrapped atoms, atoms just beyond a face) into a scratch directory and parsed by the real loaders.  Faults injected into the cache file: EVERY '
     'byte-prefix (thorough; quick: every 5th prefix plus the first and last 24) = the state an interrupted '
     'non-atomic write leaves; empty file; random bytes; bit flips in header and body; pickles that fail to import '
     '(AttributeError / ModuleNotFoundError / ValueError paths); damage -> recover -> damage cycles; real crashes '
@@ -140,7 +140,14 @@ class Config:
         if 'Li' not in symbols:
             symbols[0] = 'Li'
         self.symbols = symbols
-        frames = np.mod(rng.uniform(0.05, 0.95, size=(1, N, 3)) + np.cumsum(rng.normal(scale=0.01, size=(T, N, 3)), axis=0), 1)
+        frames = rng.uniform(0.05, 0.95, size=(1, N, 3)) + np.cumsum(rng.normal(scale=0.01, size=(T, N, 3)), axis=0)
+        # half of the source files hold coordinates outside the box (unwrapped dumps, atoms just outside a face)
+        self.outside = bool(rng.integers(2))
+        if self.outside:
+            frames = frames + rng.integers(-1, 2, size=(1, N, 3)) * (rng.uniform(size=(1, N, 3)) < 0.5)
+            frames[:, 0, 0] = frames[:, 0, 0] - np.floor(frames[0, 0, 0]) - 0.0625 * (1 + np.arange(T) % 2)
+        else:
+            frames = np.mod(frames, 1)
         self.explicit_cache = bool(rng.integers(2))
         if loader == 'vasprun':
             _, _, m = geom.random_lattice(rng, lo=4.0, hi=8.0)
@@ -392,3 +399,4 @@ def _run_cfg(unit, rng, ctx, loader, d):
         ctx.check(same(again, base_res), f'{what}: after loading with {var} the original arguments no longer return their own trajectory', {**wit, 'variant': var})
         ctx.count('argument_variants_checked')
     ctx.count(f'configs:{loader}')
+    ctx.count('configs_with_source_coordinates_outside_the_box', cfg.outside)
